@@ -701,7 +701,14 @@ func (m *metadataAPI) newPartitionFailoverExpiredHandler(p *partition) failoverE
 
 func (m *metadataAPI) newPartitionFailoverHandler(p *partition) failoverHandler {
 	return func(ctx context.Context) *status.Status {
-		return m.electNewPartitionLeader(ctx, p)
+		st := m.electNewPartitionLeader(ctx, p)
+		// The witnesses have been used up for this attempt. Keeping them (the
+		// expiration timer is stopped by now) would let a single report fail
+		// over the next leader, or a leader that is reported again much later.
+		m.mu.Lock()
+		delete(m.partitionFailovers, p)
+		m.mu.Unlock()
+		return st
 	}
 }
 
